@@ -4,6 +4,7 @@ package main
 
 import (
 	"bytes"
+	"path/filepath"
 	"encoding/json"
 	"flag"
 	"fmt"
@@ -127,7 +128,16 @@ func main() {
 	tmp := flag.String("tmp", "", "scratch directory")
 	only := flag.String("backend", "", "restrict to one backend kind")
 	replay := flag.String("replay", "", "replay file")
+	corpus := flag.String("corpus", "", "directory holding corpus/<property>/*.txt (default: derived from the driver path)")
 	flag.Parse()
+	if *corpus == "" && *driver != "" {
+		// <verif>/lean/.lake/build/bin/gfsdriver
+		d := *driver
+		for i := 0; i < 5; i++ {
+			d = filepath.Dir(d)
+		}
+		*corpus = d
+	}
 	f, ok := props[*prop]
 	if !ok {
 		var ks []string
@@ -150,6 +160,12 @@ func main() {
 	ctx := &Ctx{Tier: *tier, Seed: *seed, Rng: rand.New(rand.NewSource(*seed)), Tmp: *tmp, D: d,
 		R: &Report{Property: *prop, Tier: *tier, Seed: *seed, Hist: map[string]int{}}, seen: map[string]bool{},
 		Only: *only, Replay: *replay, maxMism: 400}
+	// the witnesses of past findings first
+	if *corpus != "" {
+		if n := runCorpus(ctx, *prop, *corpus); n > 0 {
+			ctx.R.Hist["corpus:operations-replayed"] = n
+		}
+	}
 	f(ctx)
 	d.Close()
 	ctx.R.DriverLines = d.N
